@@ -45,81 +45,133 @@ theorem step1_eq (P : Params) (back : Surface) (x : P1) (r c : Nat) :
   · cases hk : (rasterise P (normalise P x r c).1).kind <;> cases hb : (back r c).kind <;>
       simp [paintArea, imgK, hk, hb, eraseOf, imageOf]
 
-/-- the front surface after the first pass (well-placed surfaces): cells under wide characters are
-zero-width, glyphs are replaced by their images -/
-def normR (P : Params) (s : Surface) : Surface :=
-  fun r c => if shadowedRaw P s r c then nulCell else rasterise P (s r c)
+/-- `p` lies in the area of some image cell of the surface -/
+def Cov (P : Params) (H W : Nat) (s : Surface) (p : Nat × Nat) : Prop :=
+  ∃ q : Nat × Nat, q.1 < H ∧ q.2 < W ∧ covers P s q p = true
 
-structure ShInv (P : Params) (s : Surface) (r c : Nat) (sh : Nat × Nat) : Prop where
-  sh1 : shadowedRaw P s r c = true ↔ (sh.1 = r ∧ c < sh.2)
+theorem coverOf_none_iff (P : Params) (H W : Nat) (s : Surface) (p : Nat × Nat) :
+    coverOf P H W s p = none ↔ ¬ Cov P H W s p := by
+  unfold coverOf Cov
+  rw [List.find?_eq_none]
+  constructor
+  · rintro h ⟨q, q1, q2, q3⟩
+    exact h q (by rw [List.mem_reverse, mem_allPos]; exact ⟨q1, q2⟩) q3
+  · intro h q hq hc
+    rw [List.mem_reverse, mem_allPos] at hq
+    exact h ⟨q, hq.1, hq.2, hc⟩
+
+/-- the front surface after the first pass outside image areas: cells under displayed wide characters
+are zero-width, glyphs are replaced by their images -/
+def normD (P : Params) (H W : Nat) (s : Surface) : Surface :=
+  fun r c => if shadowed P H W s r c then nulCell else rasterise P (s r c)
+
+/-- the cell the first pass writes at `(r, c)` when its shadow variable is `sh` -/
+def cellOf (P : Params) (sh : Nat × Nat) (s : Surface) (r c : Nat) : Cell :=
+  if sh.1 = r ∧ c < sh.2 then nulCell else rasterise P (s r c)
+
+structure ShInv (P : Params) (H W : Nat) (s : Surface) (r c : Nat) (sh : Nat × Nat) : Prop where
+  shU : ¬ Cov P H W s (r, c) → (shadowed P H W s r c = true ↔ (sh.1 = r ∧ c < sh.2))
+  shw : (sh.1 = r ∧ c < sh.2) → ∃ c', c' + 1 = c ∧ isWide P (s r c') = true
   sh2 : sh.1 = r → sh.2 ≤ c + 1
   shr : sh.1 ≤ r
 
-theorem normalise_spec (P : Params) (s : Surface) (r c : Nat) (x : P1) (hx : ShInv P s r c x.shadow)
+theorem normalise_spec (P : Params) (H W : Nat) (s : Surface) (r c : Nat) (x : P1)
+    (hx : ShInv P H W s r c x.shadow)
     (hfr : x.front r c = s r c)
-    (hmk : isWide P (s r c) = true → shadowedRaw P s r c = false → x.marks r c ≠ .ignored)
+    (hmk : isWide P (s r c) = true → ¬ Cov P H W s (r, c) → x.marks r c ≠ .ignored)
+    (hcut : isWide P (s r c) = true → (Cov P H W s (r, c) ↔ Cov P H W s (r, c + 1)))
     (hw2 : ∀ ch, (s r c).kind = .chr ch → P.width ch ≤ 2) :
-    (normalise P x r c).1 = (if shadowedRaw P s r c then nulCell else s r c) ∧
-    ShInv P s r (c + 1) (normalise P x r c).2 := by
+    rasterise P (normalise P x r c).1 = cellOf P x.shadow s r c ∧
+    ShInv P H W s r (c + 1) (normalise P x r c).2 := by
+  have spec_succ : shadowed P H W s r (c + 1) =
+      (isWide P (s r c) && !shadowed P H W s r c && (coverOf P H W s (r, c)).isNone) := rfl
   by_cases hsh : r = x.shadow.1 ∧ c < x.shadow.2
-  · have hshd : shadowedRaw P s r c = true := hx.sh1.2 ⟨hsh.1.symm, hsh.2⟩
+  · -- covered by a wide character
+    have hm : x.shadow.1 = r ∧ c < x.shadow.2 := ⟨hsh.1.symm, hsh.2⟩
     have hn : normalise P x r c = (nulCell, x.shadow) := by simp [normalise, hsh]
     rw [hn]
-    refine ⟨by simp [hshd], ?_, ?_, hx.shr⟩
-    · simp only [shadowedRaw, hshd, Bool.not_true, Bool.and_false]
+    refine ⟨by simp [cellOf, hm, rasterise, nulCell], ?_, ?_, ?_, hx.shr⟩
+    · intro _
+      have hno : ¬ (x.shadow.1 = r ∧ c + 1 < x.shadow.2) := by
+        intro h; have := hx.sh2 h.1; omega
       constructor
-      · intro h; cases h
-      · rintro ⟨h1, h2⟩
-        have h1' : x.shadow.1 = r := h1
-        have h2' : c + 1 < x.shadow.2 := h2
-        have := hx.sh2 h1'
-        omega
-    · intro h; have h' : x.shadow.1 = r := h; have := hx.sh2 h'; show x.shadow.2 ≤ c + 1 + 1; omega
-  · have hshd : shadowedRaw P s r c = false := by
-      cases h : shadowedRaw P s r c
-      · rfl
-      · exact absurd (hx.sh1.1 h) (fun h' => hsh ⟨h'.1.symm, h'.2⟩)
-    by_cases hwide : isWide P (s r c) = true
-    · obtain ⟨ch, hk, hw⟩ := isWide_chr P _ hwide
-      have hmk' := hmk hwide hshd
-      have hn : normalise P x r c = (s r c, (r, c + P.width ch)) := by
-        have : P.width ch > 1 := by omega
-        simp [normalise, hsh, hmk', hfr, hk, this]
-      have hw2' := hw2 ch hk
-      rw [hn]
-      refine ⟨by simp [hshd], ?_, ?_, Nat.le_refl r⟩
-      · simp only [shadowedRaw, hwide, hshd, Bool.not_false, Bool.and_self, true_iff]
-        exact ⟨trivial, by omega⟩
-      · intro _; show c + P.width ch ≤ c + 1 + 1; omega
-    · have hwf : isWide P (s r c) = false := by
-        cases h : isWide P (s r c)
-        · rfl
-        · exact absurd h hwide
-      have hn : normalise P x r c = (s r c, x.shadow) := by
-        unfold normalise
-        rw [if_neg hsh, hfr]
-        split
-        · rfl
-        · split
+      · intro hs1
+        exfalso
+        rw [spec_succ] at hs1
+        simp only [Bool.and_eq_true, Bool.not_eq_true', Option.isNone_iff_eq_none] at hs1
+        have hnc : ¬ Cov P H W s (r, c) := (coverOf_none_iff P H W s (r, c)).1 hs1.2
+        have := (hx.shU hnc).2 hm
+        rw [hs1.1.2] at this
+        cases this
+      · intro h; exact absurd h hno
+    · intro h; have := hx.sh2 h.1; have := h.2; exact absurd (show c + 1 < x.shadow.2 from h.2) (by omega)
+    · intro h; have := hx.sh2 h; show x.shadow.2 ≤ c + 1 + 1; omega
+  · have hm : ¬ (x.shadow.1 = r ∧ c < x.shadow.2) := fun h => hsh ⟨h.1.symm, h.2⟩
+    have hcellS : cellOf P x.shadow s r c = rasterise P (s r c) := by simp [cellOf, hm]
+    -- the two ways the shadow is left alone
+    have keep : normalise P x r c = (s r c, x.shadow) →
+        (isWide P (s r c) = true → x.marks r c = .ignored) →
+        rasterise P (normalise P x r c).1 = cellOf P x.shadow s r c ∧
+        ShInv P H W s r (c + 1) (normalise P x r c).2 := by
+      intro hn hnr
+      rw [hn, hcellS]
+      refine ⟨rfl, ?_, ?_, ?_, hx.shr⟩
+      · intro _
+        have hno : ¬ (x.shadow.1 = r ∧ c + 1 < x.shadow.2) := by
+          intro h; exact hm ⟨h.1, by omega⟩
+        constructor
+        · intro hs1
+          exfalso
+          rw [spec_succ] at hs1
+          simp only [Bool.and_eq_true, Bool.not_eq_true', Option.isNone_iff_eq_none] at hs1
+          have hnc : ¬ Cov P H W s (r, c) := (coverOf_none_iff P H W s (r, c)).1 hs1.2
+          exact hmk hs1.1.1 hnc (hnr hs1.1.1)
+        · intro h; exact absurd h hno
+      · intro h
+        have h1 : x.shadow.1 = r := h.1
+        have h2 : c + 1 < x.shadow.2 := h.2
+        exact absurd ⟨h1, by omega⟩ hm
+      · intro h
+        have h' : x.shadow.1 = r := h
+        show x.shadow.2 ≤ c + 1 + 1
+        have := hx.sh2 h'; omega
+    by_cases hig : x.marks r c = .ignored
+    · apply keep
+      · simp [normalise, hsh, hig, hfr]
+      · intro _; exact hig
+    · by_cases hwide : isWide P (s r c) = true
+      · obtain ⟨ch, hk, hw⟩ := isWide_chr P _ hwide
+        have hw2' := hw2 ch hk
+        have hn : normalise P x r c = (s r c, (r, c + P.width ch)) := by
+          have : P.width ch > 1 := by omega
+          simp [normalise, hsh, hig, hfr, hk, this]
+        rw [hn, hcellS]
+        refine ⟨rfl, ?_, ?_, ?_, Nat.le_refl r⟩
+        · intro hnc1
+          have hnc : ¬ Cov P H W s (r, c) := fun h => hnc1 ((hcut hwide).1 h)
+          have hs0 : shadowed P H W s r c = false := by
+            cases h : shadowed P H W s r c
+            · rfl
+            · exact absurd ((hx.shU hnc).1 h) hm
+          constructor
+          · intro _; exact ⟨rfl, by show c + 1 < c + P.width ch; omega⟩
+          · intro _
+            rw [spec_succ, hwide, hs0, (coverOf_none_iff P H W s (r, c)).2 hnc]
+            rfl
+        · intro _; exact ⟨c, rfl, hwide⟩
+        · intro _; show c + P.width ch ≤ c + 1 + 1; omega
+      · apply keep
+        · unfold normalise
+          rw [if_neg hsh, if_neg hig, hfr]
+          split
           · rename_i ch hk
             have : ¬ P.width ch > 1 := by
               intro h
-              simp [isWide, hk] at hwf
-              omega
+              apply hwide
+              simp [isWide, hk]; omega
             simp [this]
           · rfl
-      rw [hn]
-      refine ⟨by simp [hshd], ?_, ?_, hx.shr⟩
-      · simp only [shadowedRaw, hwf, Bool.false_and]
-        constructor
-        · intro h; cases h
-        · rintro ⟨h1, h2⟩
-          have h1' : x.shadow.1 = r := h1
-          have h2' : c + 1 < x.shadow.2 := h2
-          exfalso
-          apply hsh
-          exact ⟨h1'.symm, by omega⟩
-      · intro h; have h' : x.shadow.1 = r := h; have := hx.sh2 h'; show x.shadow.2 ≤ c + 1 + 1; omega
+        · intro h; exact absurd h hwide
 
 /-- area of the image `o` placed at `(r, c)` contains `(r', c')` -/
 def areaOf (P : Params) (o : Option Nat) (r c r' c' : Nat) : Bool :=
@@ -165,22 +217,29 @@ theorem covers_self (P : Params) (s : Surface) (q : Nat × Nat) (i : Nat) (hi : 
     (h1 : 1 ≤ (P.size i).1) (h2 : 1 ≤ (P.size i).2) : covers P s q q = true := by
   simp [covers, hi]; omega
 
-/-- in a well-placed surface an image cell is never covered by a wide character -/
-theorem wp_img_not_shadowed (P : Params) (H W : Nat) (s : Surface) (hs : WellPlaced P H W s) (r c : Nat)
-    (hr : r < H) (hc : c < W) (hi : imgOf P (s r c) ≠ none) : shadowedRaw P s r c = false := by
-  cases c with
-  | zero => rfl
-  | succ c =>
-    cases h : shadowedRaw P s r (c + 1)
-    · rfl
-    · exfalso
-      simp only [shadowedRaw, Bool.and_eq_true, Bool.not_eq_true'] at h
-      obtain ⟨i, hi'⟩ := Option.ne_none_iff_exists'.1 hi
-      obtain ⟨_, _, w3, _, w5⟩ := hs
-      obtain ⟨s1, s2, _, _⟩ := w3 r (c + 1) i hr hc hi'
-      have := (w5 (r, c + 1) r c hr hc hr (by omega) h.1).2
-      rw [covers_self P s (r, c + 1) i hi' s1 s2] at this
-      cases this
+/-- in a well-placed surface the cell left of an image cell does not hold a wide character -/
+theorem wp_img_left_not_wide (P : Params) (H W : Nat) (s : Surface) (hs : WellPlaced P H W s) (r c : Nat)
+    (hr : r < H) (hc : c + 1 < W) (hi : imgOf P (s r (c + 1)) ≠ none) : isWide P (s r c) = false := by
+  cases h : isWide P (s r c)
+  · rfl
+  · exfalso
+    obtain ⟨i, hi'⟩ := Option.ne_none_iff_exists'.1 hi
+    obtain ⟨_, _, w3, _, w5⟩ := hs
+    obtain ⟨s1, s2, _, _⟩ := w3 r (c + 1) i hr hc hi'
+    have := w5 (r, c + 1) r c hr hc hr (by omega) h
+    rw [covers_self P s (r, c + 1) i hi' s1 s2] at this
+    simp only [covers, hi'] at this
+    simp at this
+    omega
+
+/-- a wide character of a well-placed surface is covered iff its right half is -/
+theorem wp_cut (P : Params) (H W : Nat) (s : Surface) (hs : WellPlaced P H W s) (r c : Nat)
+    (hr : r < H) (hc : c < W) (hw : isWide P (s r c) = true) :
+    Cov P H W s (r, c) ↔ Cov P H W s (r, c + 1) := by
+  obtain ⟨_, _, _, _, w5⟩ := hs
+  constructor
+  · rintro ⟨q, q1, q2, q3⟩; exact ⟨q, q1, q2, by rw [← w5 q r c q1 q2 hr hc hw]; exact q3⟩
+  · rintro ⟨q, q1, q2, q3⟩; exact ⟨q, q1, q2, by rw [w5 q r c q1 q2 hr hc hw]; exact q3⟩
 
 def Before (q : Nat × Nat) (r c : Nat) : Prop := q.1 < r ∨ (q.1 = r ∧ q.2 < c)
 def Ins (st : State) (q : Nat × Nat) : Prop := q.1 < st.h ∧ q.2 < st.w
@@ -204,9 +263,12 @@ theorem not_before_self (r c : Nat) : ¬ Before (r, c) r c := by
   · exact Nat.lt_irrefl _ h.2
 
 structure G1Inv (P : Params) (st : State) (s : Surface) (r c : Nat) (x : P1) : Prop where
-  front : ∀ r' c', x.front r' c' =
-    if (r' < r ∨ (r' = r ∧ c' < c)) ∧ c' < st.w then normR P s r' c' else s r' c'
-  sh : ShInv P s r c x.shadow
+  front0 : ∀ r' c', ¬ ((r' < r ∨ (r' = r ∧ c' < c)) ∧ c' < st.w) → x.front r' c' = s r' c'
+  front1 : ∀ r' c', (r' < r ∨ (r' = r ∧ c' < c)) → c' < st.w →
+    (x.front r' c' = nulCell ∨ x.front r' c' = rasterise P (s r' c')) ∧
+    (¬ Cov P st.h st.w s (r', c') → x.front r' c' = normD P st.h st.w s r' c') ∧
+    (imgOf P (s r' c') ≠ none → x.front r' c' = rasterise P (s r' c'))
+  sh : ShInv P st.h st.w s r c x.shadow
   m1 : ∀ r' c', x.marks r' c' = .ignored → ∃ q, Before q r c ∧ Ins st q ∧ covers P s q (r', c') = true
   m2 : ∀ r' c', x.marks r' c' = .empty → st.marks r' c' = .empty ∧
     ∀ q, Before q r c → Ins st q → covers P s q (r', c') = false ∧ covers P st.back q (r', c') = false
@@ -254,51 +316,63 @@ theorem step1_general (P : Params) (st : State) (s : Surface) (hs : WellPlaced P
     G1Inv P st s r (c + 1) (step1 P st.back x r c) := by
   obtain ⟨w1, w2, w3, w4, w5⟩ := hs
   have hs' : WellPlaced P st.h st.w s := ⟨w1, w2, w3, w4, w5⟩
-  have hfr : x.front r c = s r c := by rw [hx.front r c]; simp
-  -- a wide character is never ignored when visited
-  have hmk : isWide P (s r c) = true → shadowedRaw P s r c = false → x.marks r c ≠ .ignored := by
-    intro hw _ hi
+  have hfr : x.front r c = s r c := hx.front0 r c (by omega)
+  -- an uncovered wide character is never ignored when visited
+  have hmk : isWide P (s r c) = true → ¬ Cov P st.h st.w s (r, c) → x.marks r c ≠ .ignored := by
+    intro _ hnc hi
     obtain ⟨q, _, hq, hcov⟩ := hx.m1 r c hi
-    rw [(w5 q r c hq.1 hq.2 hr hc hw).1] at hcov
-    cases hcov
-  obtain ⟨hn1, hn2⟩ := normalise_spec P s r c x hx.sh hfr hmk (fun ch hk => by
-    rcases w1 r c ch hr hc hk with h | h <;> omega)
-  -- the cell written to the front surface
-  have hcell : rasterise P (normalise P x r c).1 = normR P s r c := by
-    rw [hn1]; unfold normR
-    split
-    · simp [rasterise, nulCell]
-    · rfl
-  -- image of the new cell / of the old cell
-  have ho : imgK (normR P s r c) = imgOf P (s r c) := by
-    unfold normR
-    cases hsh : shadowedRaw P s r c
-    · simp [imgK_rasterise]
-    · simp only [if_true]
-      cases hi : imgOf P (s r c) with
-      | none => simp [imgK, nulCell]
-      | some i =>
-        have := wp_img_not_shadowed P st.h st.w s hs' r c hr hc (by rw [hi]; simp)
-        rw [hsh] at this; cases this
-  have hob : imgK (st.back r c) = imgOf P (st.back r c) := imgK_eq_imgOf P _ (fun g => hb.nogly r c g hr hc)
-  have hcellimg : imgOf P (s r c) ≠ none → normR P s r c = rasterise P (s r c) := by
+    exact hnc ⟨q, hq.1, hq.2, hcov⟩
+  obtain ⟨hcell, hn2⟩ := normalise_spec P st.h st.w s r c x hx.sh hfr hmk
+    (wp_cut P st.h st.w s hs' r c hr hc) (fun ch hk => by
+      rcases w1 r c ch hr hc hk with h | h <;> omega)
+  -- an image cell is never in the shadow of a wide character
+  have hcellimg : imgOf P (s r c) ≠ none → cellOf P x.shadow s r c = rasterise P (s r c) := by
     intro hi
-    have := wp_img_not_shadowed P st.h st.w s hs' r c hr hc hi
-    simp [normR, this]
+    have : ¬ (x.shadow.1 = r ∧ c < x.shadow.2) := by
+      intro hm
+      obtain ⟨c', hc', hw⟩ := hx.sh.shw hm
+      subst hc'
+      have := wp_img_left_not_wide P st.h st.w s hs' r c' hr hc hi
+      rw [hw] at this; cases this
+    simp [cellOf, this]
+  -- image of the new cell / of the old cell
+  have ho : imgK (cellOf P x.shadow s r c) = imgOf P (s r c) := by
+    cases hi : imgOf P (s r c) with
+    | some i => rw [hcellimg (by rw [hi]; simp), imgK_rasterise, hi]
+    | none =>
+      unfold cellOf
+      split
+      · simp [imgK, nulCell]
+      · rw [imgK_rasterise, hi]
+  have hob : imgK (st.back r c) = imgOf P (st.back r c) := imgK_eq_imgOf P _ (fun g => hb.nogly r c g hr hc)
+  have hcellor : cellOf P x.shadow s r c = nulCell ∨ cellOf P x.shadow s r c = rasterise P (s r c) := by
+    unfold cellOf; split
+    · exact Or.inl rfl
+    · exact Or.inr rfl
+  have hcelld : ¬ Cov P st.h st.w s (r, c) → cellOf P x.shadow s r c = normD P st.h st.w s r c := by
+    intro hnc
+    unfold cellOf normD
+    by_cases hm : x.shadow.1 = r ∧ c < x.shadow.2
+    · rw [if_pos hm, (hx.sh.shU hnc).2 hm]; rfl
+    · have : shadowed P st.h st.w s r c = false := by
+        cases h : shadowed P st.h st.w s r c
+        · rfl
+        · exact absurd ((hx.sh.shU hnc).1 h) hm
+      rw [if_neg hm, this]; rfl
   rw [step1_eq, hcell]
   simp only
   -- closed forms, uniformly in both branches
-  let skip : Prop := st.back r c = normR P s r c ∧ x.marks r c ≠ .damaged
-  obtain ⟨y, hy⟩ : ∃ y : P1, y = (if st.back r c = normR P s r c ∧ x.marks r c ≠ .damaged then
-        ({ x with front := setSurf x.front r c (normR P s r c), shadow := (normalise P x r c).2
-                  marks := paintArea P x.marks r c (normR P s r c) .ignored } : P1)
+  let skip : Prop := st.back r c = cellOf P x.shadow s r c ∧ x.marks r c ≠ .damaged
+  obtain ⟨y, hy⟩ : ∃ y : P1, y = (if st.back r c = cellOf P x.shadow s r c ∧ x.marks r c ≠ .damaged then
+        ({ x with front := setSurf x.front r c (cellOf P x.shadow s r c), shadow := (normalise P x r c).2
+                  marks := paintArea P x.marks r c (cellOf P x.shadow s r c) .ignored } : P1)
       else
-        { front := setSurf x.front r c (normR P s r c), shadow := (normalise P x r c).2
-          marks := paintArea P (paintArea P x.marks r c (st.back r c) .damaged) r c (normR P s r c) .ignored
+        { front := setSurf x.front r c (cellOf P x.shadow s r c), shadow := (normalise P x r c).2
+          marks := paintArea P (paintArea P x.marks r c (st.back r c) .damaged) r c (cellOf P x.shadow s r c) .ignored
           cmds := x.cmds ++ eraseOf r c (st.back r c)
-          images := x.images ++ imageOf r c (normR P s r c) }) := ⟨_, rfl⟩
+          images := x.images ++ imageOf r c (cellOf P x.shadow s r c) }) := ⟨_, rfl⟩
   rw [← hy]
-  have hyf : y.front = setSurf x.front r c (normR P s r c) := by
+  have hyf : y.front = setSurf x.front r c (cellOf P x.shadow s r c) := by
     rw [hy]; by_cases hsk : skip
     · have hsk' := hsk; simp only [skip] at hsk'; rw [if_pos hsk']
     · have hsk' := hsk; simp only [skip] at hsk'; rw [if_neg hsk']
@@ -325,7 +399,7 @@ theorem step1_general (P : Params) (st : State) (s : Surface) (hs : WellPlaced P
     rw [hy]; by_cases hsk : skip
     · have hsk' := hsk; simp only [skip] at hsk'; rw [if_pos hsk', if_pos hsk]
     · have hsk' := hsk; simp only [skip] at hsk'; rw [if_neg hsk', if_neg hsk]
-  have hyi : y.images = if skip then x.images else x.images ++ imageOf r c (normR P s r c) := by
+  have hyi : y.images = if skip then x.images else x.images ++ imageOf r c (cellOf P x.shadow s r c) := by
     rw [hy]; by_cases hsk : skip
     · have hsk' := hsk; simp only [skip] at hsk'; rw [if_pos hsk', if_pos hsk]
     · have hsk' := hsk; simp only [skip] at hsk'; rw [if_neg hsk', if_neg hsk]
@@ -353,27 +427,34 @@ theorem step1_general (P : Params) (st : State) (s : Surface) (hs : WellPlaced P
     intro i hi
     obtain ⟨s1, s2, _, _⟩ := w3 r c i hr hc hi
     rw [hi]; simp [areaOf]; omega
-  refine ⟨?_, ?_, ?_, ?_, ?_, ?_, ?_, ?_, ?_, ?_, ?_⟩
-  · -- front
-    intro r' c'
+  refine ⟨?_, ?_, ?_, ?_, ?_, ?_, ?_, ?_, ?_, ?_, ?_, ?_⟩
+  · -- front0
+    intro r' c' hnv
+    rw [hyf]
+    simp only [setSurf]
+    have h1 : ¬ (r' = r ∧ c' = c) := by
+      intro h; apply hnv; exact ⟨Or.inr ⟨h.1, by omega⟩, by rw [h.2]; exact hc⟩
+    rw [if_neg h1]
+    exact hx.front0 r' c' (by
+      intro h; apply hnv
+      rcases h.1 with h' | h'
+      · exact ⟨Or.inl h', h.2⟩
+      · exact ⟨Or.inr ⟨h'.1, by omega⟩, h.2⟩)
+  · -- front1
+    intro r' c' hv hcw
     rw [hyf]
     simp only [setSurf]
     by_cases h1 : r' = r ∧ c' = c
     · obtain ⟨rfl, rfl⟩ := h1
-      have : (r' < r' ∨ r' = r' ∧ c' < c' + 1) ∧ c' < st.w := ⟨Or.inr ⟨rfl, by omega⟩, hc⟩
-      simp [this]
-    · rw [if_neg h1, hx.front r' c']
-      have : ((r' < r ∨ r' = r ∧ c' < c) ∧ c' < st.w) ↔ ((r' < r ∨ r' = r ∧ c' < c + 1) ∧ c' < st.w) := by
-        constructor
-        · rintro ⟨h | h, h2⟩
-          · exact ⟨Or.inl h, h2⟩
-          · exact ⟨Or.inr ⟨h.1, by omega⟩, h2⟩
-        · rintro ⟨h | h, h2⟩
-          · exact ⟨Or.inl h, h2⟩
-          · refine ⟨Or.inr ⟨h.1, ?_⟩, h2⟩
-            have : c' ≠ c := fun e => h1 ⟨h.1, e⟩
-            omega
-      simp only [this]
+      simp only [and_self, if_true]
+      exact ⟨hcellor, hcelld, hcellimg⟩
+    · rw [if_neg h1]
+      apply hx.front1 r' c' _ hcw
+      rcases hv with h | h
+      · exact Or.inl h
+      · refine Or.inr ⟨h.1, ?_⟩
+        have : c' ≠ c := fun e => h1 ⟨h.1, e⟩
+        omega
   · rw [hysh]; exact hn2
   · -- m1
     intro r' c' hi
@@ -470,14 +551,14 @@ theorem step1_general (P : Params) (st : State) (s : Surface) (hs : WellPlaced P
           simp only
           have e1 := hcellimg (by rw [hi]; simp)
           rw [← e1]
-          have e2 : imgK (normR P s r c) = some i := by rw [ho, hi]
+          have e2 : imgK (cellOf P x.shadow s r c) = some i := by rw [ho, hi]
           unfold imgK at e2
-          cases hk : (normR P s r c).kind with
+          cases hk : (cellOf P x.shadow s r c).kind with
           | img j =>
             rw [hk] at e2
             simp at e2
             subst e2
-            cases hcl : normR P s r c with
+            cases hcl : cellOf P x.shadow s r c with
             | mk f k => rw [hcl] at hk; simp at hk; subst hk; rfl
           | chr ch => rw [hk] at e2; simp at e2
           | gly g => rw [hk] at e2; simp at e2
@@ -538,16 +619,13 @@ theorem step1_general (P : Params) (st : State) (s : Surface) (hs : WellPlaced P
     · by_cases hsk : skip
       · right
         have hk' : (st.back r c).kind = .img i := hk
-        have hnsh : shadowedRaw P s r c = false := by
-          cases hsh : shadowedRaw P s r c
-          · rfl
-          · exfalso
-            have : normR P s r c = nulCell := by simp [normR, hsh]
-            rw [hsk.1, this] at hk'
-            simp [nulCell] at hk'
         refine ⟨?_, ?_⟩
         · show st.back r c = rasterise P (s r c)
-          rw [hsk.1]; simp [normR, hnsh]
+          rcases hcellor with h0 | h0
+          · exfalso
+            rw [hsk.1, h0] at hk'
+            simp [nulCell] at hk'
+          · rw [hsk.1, h0]
         · intro hp
           rcases (hpos (r, c)).1 hp with ⟨e, he, hpe⟩ | ⟨hns, _, _⟩
           · have := (hx.i0 e he).1
@@ -611,25 +689,27 @@ theorem pass1Row_general (P : Params) (st : State) (s : Surface) (hs : WellPlace
   have h := key st.w (Nat.le_refl _)
   unfold pass1Row
   generalize (List.range st.w).foldl (fun x c => step1 P st.back x r c) x = y at h ⊢
-  refine ⟨?_, ⟨?_, ?_, ?_⟩, ?_, ?_, ?_, ?_, ?_, ?_, ?_, ?_, ?_⟩
-  · intro r' c'
-    rw [h.front r' c']
-    have : ((r' < r ∨ r' = r ∧ c' < st.w) ∧ c' < st.w) ↔ ((r' < r + 1 ∨ r' = r + 1 ∧ c' < 0) ∧ c' < st.w) := by
-      constructor
-      · rintro ⟨h1 | h1, h2⟩
-        · exact ⟨Or.inl (by omega), h2⟩
-        · exact ⟨Or.inl (by omega), h2⟩
-      · rintro ⟨h1 | h1, h2⟩
-        · by_cases e : r' = r
-          · exact ⟨Or.inr ⟨e, h2⟩, h2⟩
-          · exact ⟨Or.inl (by omega), h2⟩
-        · omega
-    simp only [this]
+  refine ⟨?_, ?_, ⟨?_, ?_, ?_, ?_⟩, ?_, ?_, ?_, ?_, ?_, ?_, ?_, ?_, ?_⟩
+  · intro r' c' hnv
+    apply h.front0 r' c'
+    intro hv
+    apply hnv
+    rcases hv.1 with h1 | h1
+    · exact ⟨Or.inl (by omega), hv.2⟩
+    · exact ⟨Or.inl (by omega), hv.2⟩
+  · intro r' c' hv hcw
+    apply h.front1 r' c' _ hcw
+    rcases hv with h1 | h1
+    · by_cases e : r' = r
+      · exact Or.inr ⟨e, hcw⟩
+      · exact Or.inl (by omega)
+    · omega
   · have := h.sh.shr
-    simp only [shadowedRaw]
+    intro _
     constructor
-    · intro h'; cases h'
+    · intro h'; simp [shadowed] at h'
     · rintro ⟨h1, _⟩; omega
+  · rintro ⟨h1, _⟩; have := h.sh.shr; omega
   · intro h1; have := h.sh.shr; omega
   · have := h.sh.shr; omega
   · intro r' c' hi
@@ -662,11 +742,11 @@ theorem pass1_general (P : Params) (st : State) (s : Surface) (hs : WellPlaced P
       simp only [List.range_zero, List.foldl_nil]
       have nb : ∀ q : Nat × Nat, ¬ Before q 0 0 := by
         rintro q (h | h) <;> omega
-      refine ⟨?_, ⟨?_, ?_, ?_⟩, ?_, ?_, ?_, ?_, ?_, ?_, ?_, ?_, ?_⟩
-      · intro r' c'
-        have : ¬ ((r' < 0 ∨ r' = 0 ∧ c' < 0) ∧ c' < st.w) := by omega
-        simp [this]
-      · simp [shadowedRaw]
+      refine ⟨?_, ?_, ⟨?_, ?_, ?_, ?_⟩, ?_, ?_, ?_, ?_, ?_, ?_, ?_, ?_, ?_⟩
+      · intro r' c' _; rfl
+      · intro r' c' hv; omega
+      · intro _; simp [shadowed]
+      · rintro ⟨_, h⟩; simp at h
       · intro _; simp
       · simp
       · intro r' c' hi; exact absurd hi (hb.noign r' c')
